@@ -220,6 +220,60 @@ func (e *Env) Lines() []string {
 	return lines
 }
 
+// EvolvedUnderNestedStruct reports whether record `root` reaches, below a struct that is itself nested
+// in another record or container, a message whose definition differs between the two versions. That is
+// the listed C04 finding: the byte-slice decoder steps over a nested struct by Size() of what it
+// understood, which is wrong as soon as an evolved message sits anywhere inside it.
+func EvolvedUnderNestedStruct(old, new_ *Env, root int) bool {
+	oldLines, newLines := old.Lines(), new_.Lines()
+	differs := func(i int) bool {
+		return i+1 >= len(oldLines) || i+1 >= len(newLines) || oldLines[i+1] != newLines[i+1]
+	}
+	type key struct {
+		def      int
+		inStruct bool
+	}
+	seen := map[key]bool{}
+	var visitDef func(i int, inStruct bool) bool
+	var visitTy func(t Ty, inStruct bool) bool
+	visitTy = func(t Ty, inStruct bool) bool {
+		switch t.K {
+		case TyArr:
+			return visitTy(*t.Elem, inStruct)
+		case TyMap:
+			return visitTy(*t.Elem, inStruct)
+		case TyRef:
+			if t.Ref < len(new_.Defs) && new_.Defs[t.Ref].Kind == Struct {
+				return visitDef(t.Ref, true) // a struct reached through a reference is a nested struct
+			}
+			return visitDef(t.Ref, inStruct)
+		}
+		return false
+	}
+	visitDef = func(i int, inStruct bool) bool {
+		if i >= len(new_.Defs) || seen[key{i, inStruct}] {
+			return false
+		}
+		seen[key{i, inStruct}] = true
+		d := new_.Defs[i]
+		if d.Kind == Message && inStruct && differs(i) {
+			return true
+		}
+		for _, f := range d.Fields {
+			if visitTy(f.Ty, inStruct) {
+				return true
+			}
+		}
+		for _, b := range d.Branches {
+			if visitTy(Ty{K: TyRef, Ref: b.Ref}, inStruct) {
+				return true
+			}
+		}
+		return false
+	}
+	return visitDef(root, false)
+}
+
 // GoTypeLines prints the `gotype` lines (driver only).
 func (e *Env) GoTypeLines(private bool) []string {
 	var lines []string
